@@ -112,6 +112,14 @@ func (o *objectAttrReaderStrategy) evaluate(m *MethodEvaluator) error {
 			return err
 		}
 
+		if nextT == nil {
+			if m.ctx.IsCheckRound() {
+				setAttrInfos(m, currentTs, defineRow)
+			}
+
+			return nil
+		}
+
 		switch nextT.ToString() {
 		case "\n":
 			m.parser.Unget()
@@ -172,6 +180,14 @@ func (o *objectAttrAccessorStrategy) evaluate(m *MethodEvaluator) error {
 		nextT, err := m.parser.Read()
 		if err != nil {
 			return err
+		}
+
+		if nextT == nil {
+			if m.ctx.IsCheckRound() {
+				setAttrInfos(m, currentTs, defineRow)
+			}
+
+			return nil
 		}
 
 		switch nextT.ToString() {
